@@ -205,7 +205,7 @@ SPECIAL = ("[nop]", "[epsilon]", "[nop]")
 COMPAT = ("[Branch1_1]", "[Branch1_2]", "[Branch2_3]", "[Expl=Ring1]", "[Expl#Ring2]", "[Expl/Ring1]",
           "[Expl\\Ring1]", "[C@@Hexpl]", "[NHexpl]", "[=N+expl]", "[O-expl]", "[Siexpl]", "[/C@Hexpl]", "[nHexpl]")
 HUGE_ISOTOPE = "[" + "1" * 4400 + "C]"
-INVALID = (HUGE_ISOTOPE, "[C@@Hexpl]", "[NHexpl]", "[Branch1_2]", "[Expl=Ring1]", "[=N+expl]", "[Q]", "[C", "[]", "[CH10]", "[c]", "[C+]", "[C+0]", "[=Ring4]", "[Branch4]", "[#Ring1x]",
+INVALID = (HUGE_ISOTOPE, "[C+" + "1" * 45 + "]", "[" + "9" * 30 + "C]", "[N-" + "7" * 29 + "]", "[C@@Hexpl]", "[NHexpl]", "[Branch1_2]", "[Expl=Ring1]", "[=N+expl]", "[Q]", "[C", "[]", "[CH10]", "[c]", "[C+]", "[C+0]", "[=Ring4]", "[Branch4]", "[#Ring1x]",
            "[1]", "[C@@@]", "[Xx]", "[=]", "[ C]", "[C=]", "[CH]", "[Cl-]", "[Branch]", "[$C]")
 
 
@@ -732,10 +732,16 @@ class _GenState:
                 # documented argument is a str or a dict; rejected on the current tree
                 K = gen_table(rng, rng.choice(("tweak", "small")), self.cur)
                 self.handles.append((idx, "dict"))
-                yield {"op": "set_table", "lit": lit(K), "why": "nondict",
-                       "wrap": rng.choice(("mappingproxy", "userdict", "pairs_iter", "pairs_list"))}
+                w = rng.choice(("mappingproxy", "userdict", "pairs_iter", "pairs_list", "index_obj_vals"))
+                yield {"op": "set_table", "lit": lit(K), "why": "nondict", "wrap": w}
+                n = 1
+                if w == "index_obj_vals":
+                    # the caller changes the value objects in place afterwards, and reads
+                    yield {"op": "mutate", "h": idx, "how": "poke_vals", "arg": None}
+                    yield {"op": "get"}
+                    n = 3
                 if rng.random() < 0.6:
-                    yield from self.query(idx + 1, prefer="focus")
+                    yield from self.query(idx + n, prefer="focus")
                 return
             if getattr(self, "bad_sent", None) and rng.random() < 0.25:
                 bk, l = rng.choice(self.bad_sent)      # the caller retries a rejected update verbatim
@@ -744,6 +750,15 @@ class _GenState:
                 self.bad_sent = getattr(self, "bad_sent", []) + [(bk, l)]
             self.handles.append((idx, "dict"))
             yield {"op": "set_table", "lit": l, "why": bk}
+            if len(l) > 4000 and rng.random() < 0.6:
+                # a key with thousands of digits was just offered: an input with as many digits next
+                # (after going back to a preset: whatever the big key left behind is then not part of
+                # the table the fresh interpreter is given)
+                name = rng.choice(PRESET_NAMES)
+                yield {"op": "set_preset", "name": name}
+                self.table_changed(PRESET_GUESS[name])
+                yield {"op": "decode", "x": "[C]" + HUGE_ISOTOPE + "[O]", "compatible": False, "attribute": False, "why": "fail"}
+                return
             # a rejected update right before a discriminating reader
             if rng.random() < 0.6:
                 yield from self.query(idx + 1, prefer="focus")
